@@ -248,8 +248,8 @@ class Interp:
                 self.emit(l.obj, l.idx, r, s)
                 return
             raise AnalysisBroken("%s: assignment `%s` not modelled by the copy-relation engine" % (self.facts.loc(s), self.facts.ntext(s)[:70]))
-        if k in ("NullStmt",):
-            return
+        if k in ("NullStmt", "ReturnStmt"):
+            return          # a bare `return;` ends one path (an empty group, the end of a fast path); the copies of every path are examined
         if k == "IfStmt":
             if s.get("constexpr"):
                 # a compile-time configuration switch (`if constexpr (NbRhs != 0)`): the copies of both sides are examined
